@@ -76,7 +76,8 @@ def only_bad(outcome):
     return outcome in ("panic", "cut", "unsupported")
 
 
-def explore_block(O, N, end_token=None, first_class=None, nsig=2, keep=(), fixed=(), keep_outcomes=None, suffix=()):
+def explore_block(O, N, end_token=None, first_class=None, nsig=2, keep=(), fixed=(), keep_outcomes=None, suffix=(),
+                  path_hook=None):
     m = O.mir
     fn = O.find("::parse_stmt_block")
     eng = O.engine()
@@ -94,6 +95,8 @@ def explore_block(O, N, end_token=None, first_class=None, nsig=2, keep=(), fixed
                     r"<Expr as From>::from", r"to_string", *keep)
     ts = TokenStream(m, N, fixed=fixed, suffix=suffix)
     ts.install(eng)
+    if path_hook is not None:
+        eng.path_hook = path_hook(eng, ts)
     eng.max_visits = ts.n + 4
     eng.max_recursion = ts.n + 2
 
@@ -294,3 +297,118 @@ def _reg_header_total(N):
 
 for _n in (0, 1, 2, 3, 4):
     _reg_header_total(_n)
+
+
+# ------------------------------------------------------------------ the generated lexers (MIR over symbolic source bytes)
+
+def _lexer_scenarios(eng, src, L, header):
+    from . import lexing
+
+    def scen(mod):
+        data = lexing.model_bytes(eng, src, mod, L)
+        try:
+            text = data.decode()
+        except UnicodeDecodeError:
+            return []
+        srcs = [text + "\n0 0\n", text] if header else ["A B\n" + text, "A B\n" + text + "\n", "A B\n1 " + text + "\n"]
+        return [Scenario(s, [], mode="parse", render=True, note="source %r" % s) for s in srcs]
+    return scen
+
+
+def _reg_header_lexer(L, ascii_only, tier):
+    @obligation("C09/header-lexer[%s<=%d]" % ("ascii" if ascii_only else "utf8", L), profiles=("dev",), tier=tier,
+                desc="the generated header lexer from any offset, every %s source with at most %d bytes left: lexing returns "
+                     "(no panic), never yields an error item (HeaderParser::parse treats one as unreachable), and a token "
+                     "covers at least one byte and ends inside the source on a character boundary"
+                     % ("ASCII" if ascii_only else "well-formed UTF-8", L))
+    def _ob(O, L=L, ascii_only=ascii_only):
+        from . import lexing
+        from .. import lexmodel
+        m = O.mir
+        eng, src, paths = lexing.lex_explore(O, "HeaderTokenKind", L, ascii_only=ascii_only, reentry="inline")
+        scen = _lexer_scenarios(eng, src, L, True)
+        n = lexmodel.src_len(eng, src)
+        ok = []
+        for p in paths:
+            facts = {"site": "header lexer"}
+            if p.outcome == "cut":
+                O.inconclusive("loop bound too small: %s" % p.detail)
+                continue
+            if p.outcome != "return":
+                O.fail_path(p, "header lexer: %s %s" % (p.outcome, p.detail), facts, scen, parse_judge_total)
+                continue
+            st_, kind, s, e = lexing.result_of(m, "HeaderTokenKind", p)
+            if st_ == "none":
+                ok.append(p)
+                continue
+            if st_ != "ok" or s is None or e is None or e <= s:
+                O.fail_path(p, "header lexer yields %s %s [%s,%s)" % (st_, kind, s, e), facts, scen, parse_judge_total)
+                continue
+            ok.append(p)
+            be = lexing.byte(eng, src, e)
+            O.prove(p, z3.And(z3.ULE(bv64(e), n), z3.Or(n == bv64(e), z3.Not(z3.And(z3.UGE(be, 0x80), z3.ULE(be, 0xBF))))),
+                    "a header token ends inside the source on a character boundary", facts, scen, parse_judge_total)
+        O.witness(ok, "header lexer returns")
+    return _ob
+
+
+_reg_header_lexer(18, True, "quick")
+_reg_header_lexer(6, False, "quick")
+_reg_header_lexer(34, True, "thorough")
+_reg_header_lexer(8, False, "thorough")
+
+
+def _reg_body_lexer(L, ascii_only, cls, tier):
+    @obligation("C09/body-lexer[%s,%s<=%d]" % (cls, "ascii" if ascii_only else "utf8", L), profiles=("dev",), tier=tier,
+                desc="the generated body lexer from any offset whose byte is %s, every %s source with at most %d bytes left: one "
+                     "step (up to the token, or up to the re-entry after skipped trivia) returns without panic; a token or "
+                     "error item covers at least one byte and ends inside the source on a character boundary (so that an "
+                     "error located at it can be rendered)" % (
+                         {"token": "not blank, `#` or a line break", "blank": "blank", "comment": "`#`", "eol": "a line break"}[cls],
+                         "ASCII" if ascii_only else "well-formed UTF-8", L))
+    def _ob(O, L=L, ascii_only=ascii_only, cls=cls):
+        from . import lexing
+        from .. import lexmodel
+        m = O.mir
+        first = {"token": lambda b: z3.Not(lexing.in_set(b, (0x20, 9, 13, 12, 10, 0x23))),
+                 "blank": lambda b: lexing.in_set(b, (0x20, 9, 13, 12)), "comment": lambda b: b == 0x23,
+                 "eol": lambda b: b == 10}[cls]
+        eng, src, paths = lexing.lex_explore(O, "TokenKind", L, first=first, ascii_only=ascii_only, reentry="event")
+        scen = _lexer_scenarios(eng, src, L, False)
+        n = lexmodel.src_len(eng, src)
+        ok = []
+        for p in paths:
+            facts = {"site": "body lexer"}
+            if p.outcome == "cut":
+                O.inconclusive("loop bound too small: %s" % p.detail)
+                continue
+            if p.outcome != "return":
+                O.fail_path(p, "body lexer: %s %s" % (p.outcome, p.detail), facts, scen, parse_judge_total)
+                continue
+            st_, kind, s, e = lexing.result_of(m, "TokenKind", p)
+            res = p.state.extra.get("lex_reentries", [])
+            if st_ == "none" and len(res) == 1 and res[0]["end"] >= 1:
+                ok.append(p)
+                O.prove(p, z3.ULE(bv64(res[0]["end"]), n), "skipped trivia ends inside the source", facts, scen, parse_judge_total)
+                continue
+            if st_ not in ("ok", "err") or res or s is None or e is None or e <= s:
+                O.fail_path(p, "body lexer yields %s %s [%s,%s) after %d re-entries" % (st_, kind, s, e, len(res)), facts, scen,
+                            parse_judge_total)
+                continue
+            ok.append(p)
+            be = lexing.byte(eng, src, e)
+            O.prove(p, z3.And(z3.ULE(bv64(e), n), z3.Or(n == bv64(e), z3.Not(z3.And(z3.UGE(be, 0x80), z3.ULE(be, 0xBF))))),
+                    "a body token or error item ends inside the source on a character boundary", facts, scen, parse_judge_total)
+        O.witness(ok, "body lexer returns")
+    return _ob
+
+
+_reg_body_lexer(13, True, "token", "quick")
+_reg_body_lexer(4, False, "token", "quick")
+_reg_body_lexer(18, False, "blank", "quick")
+_reg_body_lexer(9, True, "comment", "quick")
+_reg_body_lexer(6, False, "comment", "quick")
+_reg_body_lexer(6, False, "eol", "quick")
+_reg_body_lexer(16, True, "token", "thorough")
+_reg_body_lexer(5, False, "token", "thorough")
+_reg_body_lexer(12, True, "comment", "thorough")
